@@ -321,6 +321,13 @@ class PatternDefInterpreter(Interpreter[str, BaseMatcher]):
             if name is None:
                 raise RuntimeError("Unexpected child in field_spec rule")
 
+            if isinstance(matcher, SequenceMatcher) and matcher.tail_matcher is not None:
+                # __post_init__ moved the trailing '*' out of `matchers`; put it back,
+                # otherwise the copy made by `replace` would lose the tail
+                return SequenceMatcher(
+                    matchers=(*matcher.matchers, matcher.tail_matcher), name=name
+                )
+
             return replace(matcher, name=name)
 
         return matcher
